@@ -304,7 +304,7 @@ def result_objects():
     attr = ast.parse('self.a = 1').body[0].targets[0]
     out.append(('AssignedAttribute', Nm.AssignedAttribute(top, attr, None, (1, 5))))
     out.append(('ImportedModule', Md.ImportedModule(sys)))
-    sm = Md.SourceModule.__new__(Md.SourceModule)
+    sm = loader.bare_instance(Md.SourceModule)
     sm.name, sm.filename, sm.declared_at = 'm', '/x/m.py', (1, 0)
     out.append(('SourceModule', sm))
     out.append(('AdditionalNameWrapper(source module)', Nm.AdditionalNameWrapper(sm, {})))
@@ -409,6 +409,8 @@ def import_error_class(run):
             p = Project([d])
             for label, fn in (('relative-import-outside-a-package', lambda: p.norm_package('.a', os.path.join(d, 'm.py'))),
                               ('relative-import-beyond-top-level', lambda: p.norm_package('...a', os.path.join(d, 'm.py'))),
+                              ('relative-name-without-a-file', lambda: p.norm_package('.a', None)),
+                              ('relative-name-with-an-empty-file-name', lambda: p.norm_package('..', '')),
                               ('unknown-module', lambda: p.get_module('nosuch_module_xyz')),
                               ('unknown-submodule', lambda: p.get_module('m.nosuch'))):
                 try:
@@ -421,6 +423,64 @@ def import_error_class(run):
                 prove('%s-raises-ImportError' % label, kind == 'ImportError', clause='unresolvable names raise ImportError [%s]' % kind, path=path)
         finally:
             import shutil
+            shutil.rmtree(d, ignore_errors=True)
+    core.explore(lambda: None, lambda p, out: go(p))
+
+
+@harness(['C08', 'C09'], 'supp.module.SourceModule._attrs / supp.evaluator.EvalCtx.declarations[import cycles, modules that do not parse]')
+def cycle_guards(run):
+    """SourceModule._attrs: reached again while the module's own analysis is running (a star-import cycle) it returns an empty table and the outer
+    analysis completes; a module whose text does not parse has an empty table; the re-entrancy flag is reset on every exit.
+    declarations(): a chain of imported names that comes back to a name it went through ends there (two modules importing a name from each
+    other)"""
+    import os
+    import shutil
+    import tempfile
+    import supp.module as Md
+    import supp.project as Pj
+    import supp.evaluator as Ev
+    import supp.name as Nm
+
+    def go(path):
+        d = tempfile.mkdtemp(prefix='supp-c08-')
+        try:
+            files = {'ma.py': 'from mb import *\nfrom_a = 1\n', 'mb.py': 'from ma import *\nfrom_b = 2\n', 'bad.py': 'def broken(:\n',
+                     'self_star.py': 'from self_star import *\nv = 1\n', 'mc.py': 'from md import q\n', 'md.py': 'from mc import q\n'}
+            for fn, body in files.items():
+                open(os.path.join(d, fn), 'w').write(body)
+            for first in ('ma', 'mb'):
+                p = Pj.Project([d])
+                try:
+                    a = p.get_module(first)._attrs
+                    out = sorted(a)
+                except BaseException as e:
+                    out = 'raised %s' % type(e).__name__
+                prove('star-import-cycle-entered-through-%s-terminates' % first, isinstance(out, list) and ('from_a' in out or 'from_b' in out),
+                      clause='a star-import cycle is analysed without recursion error and the entry module keeps its own names [%r]' % (out,), path=path)
+                prove('re-entrancy-flag-reset(%s)' % first, p.get_module('ma')._analysing is False and p.get_module('mb')._analysing is False, path=path)
+            p = Pj.Project([d])
+            try:
+                out = sorted(p.get_module('self_star')._attrs)
+            except BaseException as e:
+                out = 'raised %s' % type(e).__name__
+            prove('module-star-importing-itself-terminates', out == ['v'], clause='[%r]' % (out,), path=path)
+            try:
+                out = dict(p.get_module('bad')._attrs)
+            except BaseException as e:
+                out = 'raised %s' % type(e).__name__
+            prove('module-that-does-not-parse-has-no-names', out == {}, clause='a project module with a syntax error offers an empty table [%r]' % (out,), path=path)
+            prove('flag-reset-after-the-syntax-error', p.get_module('bad')._analysing is False, path=path)
+            # declarations through names two modules import from each other
+            ctx = Ev.EvalCtx(p)
+            q = p.get_module('mc')._attrs.get('q')
+            try:
+                r = ctx.declarations(q, [])
+                out = [type(x).__name__ for x in r]
+            except BaseException as e:
+                out = 'raised %s' % type(e).__name__
+            prove('imported-name-cycle-ends', isinstance(out, list) and 1 <= len(out) <= 3,
+                  clause='declarations() of a name two modules import from each other terminates with the names it went through [%r]' % (out,), path=path)
+        finally:
             shutil.rmtree(d, ignore_errors=True)
     core.explore(lambda: None, lambda p, out: go(p))
 
@@ -523,7 +583,7 @@ def bases_total(run):
             def evaluate(self, node):
                 return self.val
         kobj = Nm.ClassObject(Ctx(None), kscope)
-        sm = Md.SourceModule.__new__(Md.SourceModule)
+        sm = loader.bare_instance(Md.SourceModule)
         sm.name, sm.filename, sm.declared_at = 'm', '/x/m.py', (1, 0)
         sm.__dict__['scope'] = top
         values = [('source class', kobj), ('runtime class', Nm.RuntimeName('dict', dict, True)), ('runtime function', Nm.RuntimeName('len', len, True)),
@@ -583,7 +643,7 @@ def value_zoo():
         def evaluate(self, node):
             return None
     kobj = Nm.ClassObject(Ctx(), kscope)
-    sm = Md.SourceModule.__new__(Md.SourceModule)
+    sm = loader.bare_instance(Md.SourceModule)
     sm.name, sm.filename, sm.declared_at = 'm', '/x/m.py', (1, 0)
     sm.__dict__['scope'] = top
     attr = ast.parse('self.a = 1').body[0].targets[0]
